@@ -38,6 +38,8 @@ def DecErr.kind : DecErr → String
 
 abbrev R := Except DecErr
 
+def GoTy.isFmt : GoTy → Bool | .fmt _ => true | _ => false
+
 /-- which decoder: the emitted `UnmarshalJSON` or `UnmarshalYAML` -/
 inductive Wire where | json | yaml
 deriving DecidableEq, Repr
@@ -69,6 +71,12 @@ def fieldOf (plain : GoVal) (field : String) : GoVal :=
   | .strct fs => (alookup field fs).getD .nil
   | _ => .nil
 
+/-- the Go type of field `field` of a struct type (what a default literal is typed against) -/
+def fieldTyOf (ty : GoTy) (field : String) : GoTy :=
+  match ty with
+  | .strct tfs => (match tfs.find? (fun fl => fl.name = field) with | some fl => fl.ty | none => .iface)
+  | _ => .iface
+
 def setField (plain : GoVal) (field : String) (v : GoVal) : GoVal :=
   match plain with
   | .strct fs => .strct (fs.map fun (p : String × GoVal) => if p.1 = field then (p.1, v) else p)
@@ -87,6 +95,10 @@ def isPow2 : Nat → Nat → Bool
 
 /-- k·2^-j -/
 def isDyadic (q : Rat) : Bool := isPow2 64 q.den
+
+/-- a float `multipleOf` outside the dyadic rationals: float64 `math.Mod` is not mirrored there (convention F) -/
+def nonDyadicFloat (c : NumCheck) : Bool :=
+  !c.roundToInt && (match c.mult with | some m => !isDyadic m | none => false)
 
 /-- numericValidator -/
 def checkNumeric (v : GoVal) (nillable : Bool) (c : NumCheck) : Bool :=
@@ -189,10 +201,9 @@ mutual
           | none => .error (.noDecl n)
           | some d =>
             if d.hasMethod then runMethod w env f d j                                            -- G6 / G3
-            else match d.ty with
-              -- `type T time.Time` &c.: a defined type does not inherit the methods of its base type
-              | .fmt _ => .error (.unmodelled "named-format-type")
-              | _ => decode w env f d.ty j
+            -- `type T time.Time` &c.: a defined type does not inherit the methods of its base type
+            else if d.ty.isFmt then .error (.unmodelled "named-format-type")
+            else decode w env f d.ty j
       | .json, .ptr _, .null => .ok .nil                                                        -- G3
       | _, .ptr t, _ => (decode w env f t j).map .ptrTo                                         -- G4
       | _, .iface, _ | _, .nullTy, _ => .ok (jsonToIface j)                                     -- G5
@@ -352,9 +363,7 @@ mutual
             | some kvs => (match alookup k kvs with | none => true | some .null => true | _ => false)
             | none => true
           if absent then
-            let fty : GoTy := match ty with
-              | .strct tfs => (match tfs.find? (fun fl => fl.name = field) with | some fl => fl.ty | none => .iface)
-              | _ => .iface
+            let fty : GoTy := fieldTyOf ty field
             if !literalOK env 32 fty dv then .error (.uncompilable "default-literal") else
             match literal env f fty dv with
             | .ok x => runAfter w env f ty rest raw (setField plain field x)
@@ -368,7 +377,7 @@ mutual
           if checkString (fieldOf plain field) mn mx p nl then runAfter w env f ty rest raw plain else .error .string
       | .numeric field nl c =>
           -- convention F: float64 `math.Mod` is mirrored only for dyadic multipleOf (k·2^-j)
-          if !c.roundToInt && (match c.mult with | some m => !isDyadic m | none => false) then
+          if nonDyadicFloat c then
             .error (.unmodelled "float-multipleOf-non-dyadic")
           else if checkNumeric (fieldOf plain field) nl c then runAfter w env f ty rest raw plain else .error .bound
 
